@@ -92,7 +92,13 @@ def main():
     if "--id" in sys.argv:
         sid = sys.argv[sys.argv.index("--id") + 1]
     out = os.path.join(OUT_ROOT, sid)
-    meta = {"id": sid, "property": prop, "source": "independent sub-agent given only the property text", "confirmed": {}}
+    commit = ""
+    if os.path.exists(os.path.join(ROOT, "COMMIT")):
+        commit = open(os.path.join(ROOT, "COMMIT")).read().strip()
+    else:
+        commit = sh(["git", "-C", ROOT, "rev-parse", "--short", "HEAD"]).stdout.strip()
+    meta = {"id": sid, "property": prop, "source": "independent sub-agent given only the property text", "checks_at_verif_commit": commit,
+            "repo_commit": sh(["git", "-C", REPO, "rev-parse", "--short", "HEAD"]).stdout.strip(), "confirmed": {}}
     ensure_sv()
     # -- 1. confirm in the scratch worktree
     ap = sh(["git", "-C", SV, "apply", "--check", diff])
